@@ -3,7 +3,8 @@ Theorems: props/C17.v. Correspondence: model Sutoton.convert vs sutoton::convert
 concatenations (every row of the regenerated table, overlapping words), user definitions, ASCII MML, strings,
 comments, random Unicode, unterminated strings/comments.
 Oracles on the implementation's output: (a) the extracted specification (RewriteSpec.longest_match / translit /
-rewrite / define) on vocabulary concatenations, definitions and verbatim blocks; (b) ASCII identity; (c) a Japanese
+rewrite / define / strip_right) on vocabulary concatenations, definitions and verbatim blocks; (b) ASCII identity
+(up to trailing white space: convert ends with trim_end); (c) a Japanese
 source and its transliteration compile to the same bytes and log; (d) the width map for code points."""
 import json, os, re
 import vlib, mmlgen
@@ -30,7 +31,7 @@ ASCII_PLAIN = list("cdefgabrlovqt0123456789.^+-#*,()[]':;|<>@!=`\" \n\t") + ["c"
 WIDE = list("ＣｄｅＡ３８＃（）＋－＝　 ​﻿［］＞＜＠")
 KANA_OUT = list("あかさアカ猫ラテリズ改音方向")      # characters that are not words on their own
 DEF_NAMES = ["あ", "じゅー", "ぴ", "か", "猫", "abc", "x", "Do", "ド", "テンポ", "ドド", "テンポ改改", "テン", "ビブ", "方向", "ト", "トラ",
-             "ー", "a b", "音", "ファ", "ッ", "c", "#", "12", "あ\nい"]
+             "ー", "a b", "音", "ファ", "ッ", "c", "#", "12", "あ\nい", " ", " あ ", "\t", "　"]
 DEF_VALUES = ["c", "l8", "", "o5c", "d e", "ド", "a{b}c", "\nc", "v100", "Track=2", "'ceg'", "x;", "[4 c]", "{x}", "r", "あ"]
 
 
@@ -99,7 +100,7 @@ def gen_music(rng, byname):
 
 def closed_block(rng, rows):
     """a closed string or comment with arbitrary content (the terminator does not occur before the end)"""
-    alpha = [r[0] for r in rows[:60]] + list("cde {}~/*\"'#あ　Ｃ") + ["~{あ}={c}", "//", "{\"", "テンポ"]
+    alpha = [r[0] for r in rows[:60]] + list("cde {}~/*\"'#あ　Ｃ") + ["~{あ}={c}", "//", "{\"", "テンポ", "~{ }={x}", "~{ い }={d}"]
     body = "".join(rng.choice(alpha) for _ in range(rng.randrange(0, 7)))
     k = rng.choice(["s", "s", "l", "b"])
     if k == "s":
@@ -354,7 +355,7 @@ def run(ctx):
     inside = [i for i, s in enumerate(progs) if passthru_ok(s)]
     ctx.dist["ascii_identity_applied"] = len(inside)
     st = ctx.model(["strip\t%s" % vlib.enc_text(progs[i]) for i in inside])
-    R.expect("ASCII MML without '~' is changed by convert (beyond outer white space)", [progs[i] for i in inside],
+    R.expect("ASCII MML without '~' is changed by convert (beyond trailing white space)", [progs[i] for i in inside],
              [got[i] for i in inside], st, "ascii_mml")
 
     # ---- (c) Japanese source and its transliteration compile to the same file ----
